@@ -35,8 +35,7 @@ PRIORITY = [
 def run(index, rep):
     fn = index.func(PARAMS, "Parameters.calculate_human_consumption_for_min_needs")
     rep.guard(cap, index, rep, fn)
-    rep.guard(greedy, index, rep, fn)
-    rep.guard(order, index, rep, fn)
+    rep.guard(fill, index, rep, fn)
     rep.guard(retime, index, rep)
     rep.guard(bump, index, rep)
     from .lanes import lane_rule
@@ -135,139 +134,149 @@ def _branch_means_pf_greater(key, val):
     return pf_minus_t_positive if val else (not pf_minus_t_positive)
 
 
-def greedy(index, rep, fn):
-    rule = "C18.GREEDY"
-    loops = [s for s in fn.body if isinstance(s, ast.For)]
+def fill(index, rep, fn):
+    """the greedy fill of one generic month, evaluated: whatever the code shape (nine consume() calls through a closure, a loop over a
+    priority table, ...), the k-th amount consumed is min(food_k, ceiling - what foods 1..k-1 consumed), food_k is the documented round-1
+    series of the k-th food at that month, and each amount lands under that food's key of the returned dictionary"""
+    from .symx import _Return
+    rule_g, rule_o = "C18.GREEDY", "C18.ORDER"
+    loops = [s_ for s_ in fn.body if isinstance(s_, ast.For)]
     if len(loops) != 1:
         raise AnalysisError("calculate_human_consumption_for_min_needs: expected exactly one month loop")
     loop = loops[0]
-    rng = norm_src(loop.iter)
-    rep.check(rng in ("range(0, constants_inputs['NMONTHS'])", "range(constants_inputs['NMONTHS'])"), rule, "month-loop:range",
-              f"the hand-off is not computed for every month 0..NMONTHS-1 ({rng})", loc=loc(PARAMS, loop))
-    # remaining is reset to the ceiling inside the loop, before any consume()
-    first = loop.body[0]
-    closures0 = [s for s in loop.body if isinstance(s, ast.FunctionDef)]
-    nl = [n for c0 in closures0 for st0 in c0.body if isinstance(st0, ast.Nonlocal) for n in st0.names]
-    rem = nl[0] if len(nl) == 1 else "remaining_kcals"
-    ok = isinstance(first, ast.Assign) and norm_src(first.targets[0]) == rem and FDM_NAME[0] is not None and norm_src(first.value) == f"{FDM_NAME[0]}.kcals"
-    rep.check(ok, rule, "remaining:reset-every-month",
-              "remaining_kcals is not re-initialised to the ceiling at the top of every month (the ceiling would apply to the "
-              "whole horizon instead of each month)", loc=loc(PARAMS, loop))
-    outside = [s for s in fn.body if isinstance(s, ast.Assign) and norm_src(s.targets[0]) == rem]
-    rep.check(not outside, rule, "remaining:not-initialised-outside", "remaining_kcals is (also) initialised outside the month loop", loc=loc(PARAMS, fn))
-    closures = [s for s in loop.body if isinstance(s, ast.FunctionDef) and s.name == "consume"]
-    if len(closures) != 1:
-        raise AnalysisError("consume() closure not found inside the month loop")
-    c = closures[0]
-    f, r = Rat.atom(("food",)), Rat.atom(("remaining",))
-    from .symx import _Return
-    from .rat import feasible
-    neg = {"<": ">=", "<=": ">", ">": "<=", ">=": "<", "==": "!=", "!=": "=="}
+    li = fn.body.index(loop)
+    P = [a.arg for a in fn.args.args]
+    body = [s_ for s_ in fn.body if not (isinstance(s_, ast.Expr) and isinstance(s_.value, ast.Constant))]
+    li = body.index(loop)
 
     def runit(it):
-        env = {c.args.args[0].arg: f, rem: r}
+        it._mins = []
+
+        def hook(interp, d, a, kw, node):
+            if d == "Food":
+                return Obj(None, dict(kw), "food")
+            if d == "min" and len(a) == 2 and all(isinstance(x, (Rat, Path)) for x in a) and getattr(interp, "_in_loop", False):
+                interp._mins.append((interp.to_rat(a[0]), interp.to_rat(a[1])))
+                return Rat.atom(("MIN", len(interp._mins) - 1))
+            if d in ("np.zeros_like", "np.zeros"):
+                return Opaque("zeros")
+            if d and (d.startswith("Validator.") or d.startswith("self.assert_") or d == "print"):
+                return None
+            return NotImplemented
+
+        it.call_hook = hook
+        env = {P[0]: Obj(None, {}, "self"), P[1]: Path(("ci",)), P[2]: Path(("r1",))}
+        for extra in P[3:]:
+            env[extra] = Path((extra,))
+        it.exec_block(body[:li], env)
+        # one generic month
+        if not isinstance(loop.target, ast.Name):
+            raise Unsupported("month loop target", loop)
+        it._in_loop = True
+        env[loop.target.id] = Rat.atom("M")
+        it.exec_block(loop.body, env)
+        it._n_first = len(it._mins)
+        env[loop.target.id] = Rat.atom("M") + Rat.const(1)      # a second month: the ceiling must be whole again
+        it.exec_block(loop.body, env)
+        it._in_loop = False
+        ret = None
         try:
-            it.exec_block(c.body, env)
-        except _Return as e:
-            return e.value, env
-        return None, env
+            it.exec_block(body[li + 1:], env)
+        except _Return as r:
+            ret = r.value
+        return ret, env
 
     try:
-        leaves = explore(runit, month_classes=False)
+        leaves = [x for x in explore(runit, month_classes=False, preset=None) if not isinstance(x[2], Abort)]
     except Unsupported as e:
-        raise AnalysisError(f"consume() outside the analysed fragment: {e}")
-    n_leaves = 0
+        raise AnalysisError(f"greedy fill outside the analysed fragment: {e}")
+    KD = Interp().to_rat(Path(("ci", "NUTRITION", "KCALS_DAILY")))
+    want_iter = ("range(0, " + P[1] + "['NMONTHS'])", "range(" + P[1] + "['NMONTHS'])")
+    rep.check(norm_src(loop.iter) in want_iter, rule_g, "month-loop:range",
+              f"the hand-off is not computed for every month 0..NMONTHS-1 ({norm_src(loop.iter)})", loc=loc(PARAMS, loop))
+    n = 0
     for _, dec, res, it in leaves:
-        if isinstance(res, Abort):
-            continue
         ret, env = res
-        missing = [k for k in dec if k not in it.pred_exprs]
-        if missing:
-            raise AnalysisError(f"consume() forks on {missing}")
-        cons = [(it.pred_exprs[k][0], it.pred_exprs[k][1] if v else neg[it.pred_exprs[k][1]]) for k, v in dec.items()]
-        if not feasible(cons):
-            continue
-        n_leaves += 1
-        where = " and ".join(f"{x[0]} {x[1]} 0" for x in cons) or "always"
-        f_le_r = not feasible(cons + [(f - r, ">")])
-        r_le_f = not feasible(cons + [(r - f, ">")])
-        ok = isinstance(ret, Rat) and ((ret == f and f_le_r) or (ret == r and r_le_f))
-        rep.check(ok, rule, "consume:returns-min(food,remaining)" + ("" if ok else f"[{where}]"),
-                  f"consume() does not return min(food, remaining) when {where}", loc=loc(PARAMS, c), detail=str(ret))
-        ok2 = ok and isinstance(env.get(rem), Rat) and env[rem] == r - ret
-        rep.check(ok2, rule, "consume:remaining-reduced-by-consumed" + ("" if ok2 else f"[{where}]"),
-                  "remaining is not reduced by exactly the amount consumed", loc=loc(PARAMS, c))
-    if n_leaves < 2:
-        raise AnalysisError("consume(): fewer than two cases (food <= remaining, food > remaining) analysed")
-    has_nonlocal = any(isinstance(s, ast.Nonlocal) and rem in s.names for s in c.body)
-    rep.check(has_nonlocal, rule, "consume:shares-remaining", "consume() no longer updates the enclosing remaining_kcals (nonlocal)", loc=loc(PARAMS, c))
-    rep.require_min(rule, 6)
+        if not isinstance(ret, PDict):
+            raise AnalysisError("calculate_human_consumption_for_min_needs does not return a dictionary of Food constructions")
 
-
-def order(index, rep, fn):
-    rule = "C18.ORDER"
-    loop = [s for s in fn.body if isinstance(s, ast.For)][0]
-    calls = []
-    for st in loop.body:
-        if isinstance(st, ast.Expr) and isinstance(st.value, ast.Call) and isinstance(st.value.func, ast.Attribute) \
-                and st.value.func.attr == "append" and st.value.args and isinstance(st.value.args[0], ast.Call) \
-                and dotted(st.value.args[0].func) == "consume":
-            lst = norm_src(st.value.func.value)
-            arg = st.value.args[0].args[0]
-            attrs = [n.attr for n in ast.walk(arg) if isinstance(n, ast.Attribute) and n.attr.endswith("_kcals_equivalent")]
-            idx_ok = all(norm_src(n.slice) == loop.target.id for n in ast.walk(arg) if isinstance(n, ast.Subscript))
-            lanes = {n.attr for n in ast.walk(arg) if isinstance(n, ast.Attribute) and n.attr in ("kcals", "fat", "protein")}
-            calls.append((lst, attrs, idx_ok, lanes, st))
-    if len(calls) != 9:
-        raise AnalysisError(f"{len(calls)} consume() calls found in the month loop (expected 9)")
-    # dictionary: key -> list variable
-    ret_dict = None
-    for st in fn.body:
-        if isinstance(st, ast.Assign) and isinstance(st.value, ast.Dict) and isinstance(st.targets[0], ast.Name) and len(st.value.keys) >= 9 and \
-                any(isinstance(r_, ast.Return) and norm_src(r_.value) == st.targets[0].id for r_ in fn.body):
-            ret_dict = st.value
-            ret_name = st.targets[0].id
-    if ret_dict is None:
-        raise AnalysisError("the returned dictionary of per-food consumption (a dict literal) was not found")
-    key_of_list = {}
-    for k, v in zip(ret_dict.keys, ret_dict.values):
-        kk = str_const(k)
-        if isinstance(v, ast.Call) and dotted(v.func) == "Food":
-            kc = [kw.value for kw in v.keywords if kw.arg == "kcals"]
-            if kc:
-                key_of_list[norm_src(kc[0])] = kk
-    got_order = []
-    for (lst, attrs, idx_ok, lanes, st), (pkey, pattrs) in zip(calls, PRIORITY):
-        key = key_of_list.get(lst)
-        got_order.append(key)
-        rep.check(key == pkey and sorted(attrs) == sorted(pattrs) and idx_ok and lanes == {"kcals"}, rule, f"priority[{len(got_order)}]:{pkey}",
-                  f"position {len(got_order)} of the greedy fill is {key} reading {attrs} (month index ok: {idx_ok}); the documented order "
-                  f"puts {pkey} reading {pattrs} there", loc=loc(PARAMS, st))
-    rep.check(len(set(l for l, *_ in calls)) == 9, rule, "each-food-own-series", "two foods append to the same series", loc=loc(PARAMS, fn))
+        def food_attrs(v):
+            return v.attrs if isinstance(v, Obj) and v.name == "food" else None
+        n += 1
+        mins = it._mins
+        # ceiling of this leaf: the kcals of the one Food built before the loop
+        ceil_objs = [v for v in env.values() if food_attrs(v) is not None and isinstance(v.attrs.get("kcals"), Rat)]
+        ceiling = ceil_objs[0].attrs["kcals"] if len(ceil_objs) >= 1 else None
+        ok_g = ceiling is not None and len(mins) == 18 and it._n_first == 9
+        consumed_so_far = Rat.const(0)
+        foods = []
+        for k, (a0, a1) in enumerate(mins):
+            if k == 9:
+                consumed_so_far = Rat.const(0)  # second month starts from the whole ceiling
+            remaining_k = ceiling - consumed_so_far if ceiling is not None else None
+            if a1 == remaining_k:
+                food_k = a0
+            elif a0 == remaining_k:
+                food_k = a1
+            else:
+                ok_g = False
+                food_k = None
+            foods.append(food_k)
+            consumed_so_far = consumed_so_far + Rat.atom(("MIN", k))
+        rep.check(ok_g, rule_g, "k-th amount = min(food_k, ceiling - amounts 1..k-1), ceiling reset every month",
+                  "the amounts handed off for a month are not the greedy fill of that month's ceiling: each must be min(food, what is left of the "
+                  "ceiling after the foods before it) and the ceiling must be whole again at the start of every month", loc=loc(PARAMS, loop))
+        # where each amount lands, and what food_k is
+        got = {}
+        for key, v in ret.d.items():
+            kc = food_attrs(v).get("kcals") if food_attrs(v) is not None else None
+            items = kc.items if isinstance(kc, PList) else None
+            if items is not None and len(items) == 2 and isinstance(items[0], Rat):
+                ms = [a_ for a_ in items[0].atoms() if isinstance(a_, tuple) and a_[0] == "MIN"]
+                if len(ms) == 1 and items[0] == Rat.atom(ms[0]):
+                    got[ms[0][1]] = str(key)
+        for k, (pkey, pattrs) in enumerate(PRIORITY):
+            fk = foods[k] if k < len(foods) else None
+            want_food = sum((it.to_rat(Path(("r1", a_, "[]", "kcals"), it.index_of(Rat.atom("M")))) for a_ in pattrs), Rat.const(0)) if True else None
+            try:
+                want_food = Rat.const(0)
+                for a_ in pattrs:
+                    want_food = want_food + it.to_rat(it.getattr(it.getitem(Path(("r1", a_)), Rat.atom("M"), loop), "kcals", loop))
+            except Unsupported:
+                want_food = None
+            ok_o = got.get(k) == pkey and fk is not None and want_food is not None and fk == want_food
+            rep.check(ok_o, rule_o, f"priority[{k + 1}]:{pkey}",
+                      f"position {k + 1} of the greedy fill is stored under {got.get(k)!r} and consumes {fk}; the documented order puts {pkey} = "
+                      f"{' + '.join(pattrs)} (kcals of that month) there", loc=loc(PARAMS, loop))
+        rep.check(len(ret.d) == 9 and len(set(got.values())) == 9, rule_o, "each-food-own-series", "two foods share a series, or a food has none",
+                  loc=loc(PARAMS, fn))
+        labs = {str(k_): (v.attrs.get("kcals_units"), v.attrs.get("fat_units")) for k_, v in ret.d.items() if food_attrs(v) is not None}
+        rep.check(all(l == ("kcals per person per day", "effective kcals per person per day") for l in labs.values()), rule_o, "hand-off units",
+                  "the hand-off is not labelled kcals per person per day", loc=loc(PARAMS, fn))
+        key_names = {str(k_) for k_ in ret.d}
+    if n < 1:
+        raise AnalysisError("greedy fill: no completing path")
     # keys = resource food_names + {fish, dairy, greenhouse}
     from .lpdb import LPDB
     db = LPDB(index)
     want_keys = {r["food_name"] for r in db.resources.values()} | {"fish", "dairy", "greenhouse"}
-    rep.check(set(key_of_list.values()) == want_keys, rule, "keys:match-optimiser-food-names",
-              f"hand-off keys {sorted(set(key_of_list.values()) ^ want_keys)} differ from the optimiser's resource food names (+fish, dairy, greenhouse): "
+    rep.check(key_names == want_keys, rule_o, "keys:match-optimiser-food-names",
+              f"hand-off keys {sorted(key_names ^ want_keys)} differ from the optimiser's resource food names (+fish, dairy, greenhouse): "
               "round 2 would not find / pin a food", loc=loc(PARAMS, fn))
     # the validator's list is the same sequence
     v = index.func(VAL, "Validator.verify_food_usage_priorities_round2")
-    lists = [n for n in ast.walk(v) if isinstance(n, ast.List) and len(n.elts) == 9 and all(str_const(e) for e in n.elts)]
+    lists = [n_ for n_ in ast.walk(v) if isinstance(n_, ast.List) and len(n_.elts) == 9 and all(str_const(e) for e in n_.elts)]
     names = [[str_const(e) for e in l.elts] for l in lists]
-    rep.check([p for p, _ in PRIORITY] in names, rule, "validator:same-order",
+    rep.check([p_ for p_, _ in PRIORITY] in names, rule_o, "validator:same-order",
               "Validator.verify_food_usage_priorities_round2 checks a different priority sequence", loc=loc(VAL, v))
-    # the result is returned and is what round 2 pins (slot flow into optimize_feed_to_animals)
-    rets = [r for r in fn.body if isinstance(r, ast.Return)]
-    rep.check(len(rets) == 1 and norm_src(rets[0].value) == ret_name, rule, "returned", "the filled dictionary is not what is returned",
-              loc=loc(PARAMS, fn))
     c2 = index.func(PARAMS, "Parameters.compute_parameters_second_round")
-    asg = [s for s in walk_no_nested(c2) if isinstance(s, ast.Assign) and isinstance(s.value, ast.Call)
-           and dotted(s.value.func) == "self.calculate_human_consumption_for_min_needs"]
+    from .core import Inliner
+    inl2 = Inliner(c2)
     ret2 = [r for r in c2.body if isinstance(r, ast.Return) and isinstance(r.value, ast.Tuple)]
-    ok = len(asg) == 1 and ret2 and norm_src(ret2[-1].value.elts[4]) == norm_src(asg[0].targets[0])
-    rep.check(ok, rule, "second-round:slot-4", "compute_parameters_second_round does not return the hand-off in slot 4", loc=loc(PARAMS, c2))
-    rep.require_min(rule, 13)
+    ok = bool(ret2) and len(ret2[-1].value.elts) > 4 and inl2.src(ret2[-1].value.elts[4]).startswith("self.calculate_human_consumption_for_min_needs(")
+    rep.check(ok, rule_o, "second-round:slot-4", "compute_parameters_second_round does not return the hand-off in slot 4", loc=loc(PARAMS, c2))
+    rep.require_min(rule_g, 2)
+    rep.require_min(rule_o, 13)
 
 
 def retime(index, rep):
